@@ -170,6 +170,15 @@ class ModelFile(io.RawIOBase):
         self.length = max(self.length, self.pos)
         return len(data)
 
+    def truncate(self, size=None):
+        size = self.pos if size is None else size
+        self.over = {p: v for p, v in self.over.items() if p < size}
+        if size < self.length:
+            base = self.byte_at
+            self.byte_at = lambda p, base=base, size=size: 0 if p >= size else base(p)
+        self.length = size
+        return size
+
     def get(self, p):
         if p in self.over:
             return self.over[p]
@@ -287,6 +296,9 @@ def untouched(log, fname, addr, length=1):
     conj = []
     for name, off, bs in log:
         if name != fname:
+            continue
+        if isinstance(bs, symfile.Trunc):
+            conj.append(z3.ULE(addr + length, off))     # everything from the new length on is gone
             continue
         conj.append(z3.Or(z3.ULE(addr + length, off), z3.UGE(addr, off + len(bs))))
     return z3.And(*conj) if conj else z3.BoolVal(True)
